@@ -245,7 +245,7 @@ class _Reparse:
 
     def top(self, x):
         from collections.abc import Mapping
-        if self.is_dc and self.case.get("entry") == "from" and isinstance(x, Mapping):
+        if self.is_dc and self.case.get("entry") == "from" and (isinstance(x, Mapping) or not isinstance(x, self.T)):
             return self.T.__from__(x, options=self.opts)    # (an instance of a non-dict DataClass is not *data* for __from__)
         return self.u.type_transform(x, self.T, options=self.opts)
 
@@ -309,6 +309,10 @@ class _Reparse:
                 inner = self.opts if (top and self.case.get("entry") == "from" and self.opts is not None) else K.__options__
                 desc = self.case["classes"][t["dc"]]
                 data = _data_of(r)
+                missing = [f.attname for f in K.__parser__.fields.values()
+                           if f.field.no_output and f.field.required is True and f.name not in data and f.attname not in data]
+                if missing and k != "ok":
+                    return dict(here, kind="dc", dropped_required_no_output=missing)
                 for name, f in K.__parser__.fields.items():
                     fd = next((x for x in desc["fields"] if x["name"] == f.attname), None)
                     if fd is None:
@@ -316,11 +320,12 @@ class _Reparse:
                     for key in (f.name, f.attname):
                         if key in data:
                             c = self.locate(fd["type"], data[key], inner)
-                            if c:
+                            tolerant = (f.field.on_error or getattr(inner, "invalid_values", None)) in ("preserve", "exclude")
+                            if c and not (tolerant and "ok" not in c.get("observed", {})):
+                                # (a value the field keeps although its type rejects it — on_error / invalid_values
+                                # 'preserve' — is rejected and kept again: a fixed point of the field)
                                 return c
                             break
-                missing = [f.attname for f in K.__parser__.fields.values()
-                           if f.field.no_output and f.field.required is True and f.name not in data and f.attname not in data]
                 return dict(here, kind="dc", dropped_required_no_output=missing)
             return dict(here, kind="dc-foreign")
         if "g" in t and t["g"] in ("List", "Set", "FrozenSet", "TupleE", "Tuple", "Dict"):
@@ -410,16 +415,21 @@ def impl_reparse(case):
                 inner = R.opts if (case.get("entry") == "from" and R.opts is not None) else K.__options__
                 desc = case["classes"][case["type"]["dc"]]
                 cul = None
+                missing = [f.attname for f in K.__parser__.fields.values()
+                           if f.field.no_output and f.field.required is True and f.name not in plain and f.attname not in plain]
                 for name, f in K.__parser__.fields.items():
+                    if missing and k3 != "ok":
+                        break
                     fd = next((x for x in desc["fields"] if x["name"] == f.attname), None)
                     for key in (f.name, f.attname):
                         if fd and key in plain:
                             cul = R.locate(fd["type"], plain[key], inner)
+                            tolerant = (f.field.on_error or getattr(inner, "invalid_values", None)) in ("preserve", "exclude")
+                            if cul and tolerant and "ok" not in cul.get("observed", {}):
+                                cul = None
                             break
                     if cul:
                         break
-                missing = [f.attname for f in K.__parser__.fields.values()
-                           if f.field.no_output and f.field.required is True and f.name not in plain and f.attname not in plain]
                 out["culprit"] = cul or {"kind": "dc", "node": case["type"], "value": deep(first), "observed": out["plain"],
                                          "dropped_required_no_output": missing}
             except Exception as e:
@@ -758,6 +768,119 @@ def gen_copy_case(rng):
     return {"op": "copy", "value": enc2(v)}
 
 
+# ------------------------------------------------------------------------------------------------
+# the DOCUMENTED semantics of a constrained type's validator phase (docs/en/references/rule.md), frozen here:
+# constraints run in the documented order; a strict one checks (c02.sat), a Lax one transforms as documented.  The known
+# findings of the "rule" stream are classified against this reference, never against the model regenerated from the
+# (possibly changed) source: a finding is "known" only if the real code did exactly what the documented order does.
+# ------------------------------------------------------------------------------------------------
+
+DOC_ORDER = ["gt", "ge", "lt", "le", "const", "enum", "regex", "decimal_places", "multiple_of", "max_digits", "length",
+             "max_length", "min_length", "unique_items"]
+
+
+class DocFail(Exception):
+    pass
+
+
+def doc_lax(name, v, b):
+    """documented transformation of a Lax constraint ("Lax constraints", rule.md)"""
+    if name == "ge":
+        return b if v < b else v
+    if name == "le":
+        return b if v > b else v
+    if name in ("max_length", "length"):
+        s_ = v if hasattr(v, "__len__") else str(v)
+        if len(s_) > b:
+            if not hasattr(v, "__len__"):
+                raise DocFail
+            return v[:b]
+        if name == "length" and len(s_) < b:
+            raise DocFail
+        return v
+    if name == "decimal_places":
+        return round(v, b)
+    if name == "max_digits":
+        digits, decimals = digit_counts(v)
+        if digits <= b:
+            return v
+        delta = digits - b
+        if decimals >= delta:
+            return round(v, decimals - delta)
+        raise DocFail
+    if name == "multiple_of":
+        return v if not (v % b) else (v // b) * b
+    if name == "const":
+        return b
+    if name == "enum":
+        return v if v in b else list(b)[0]
+    if name == "unique_items":
+        if not b:
+            return v
+        out = []
+        for x in v:
+            if not any(x == y for y in out):
+                out.append(x)
+        return type(v)(out)
+    raise DocFail
+
+
+def doc_parse(case, v):
+    """-> ("ok", result) | ("fail", None): the validator phase in the documented order and sense"""
+    lax = set(case.get("lax", []))
+    cs = [(n, decode(b)) for n, b in case["constraints"]]
+    names = [n for n, _ in cs]
+    if "const" in names:
+        cs = [c for c in cs if c[0] == "const"]
+    elif "enum" in names:
+        cs = [c for c in cs if c[0] == "enum"]
+        cs = [(n, list(b) if isinstance(b, (tuple, set, frozenset)) else b) for n, b in cs]
+    run = v
+    try:
+        for n, b in sorted(cs, key=lambda c: DOC_ORDER.index(c[0])):
+            if b is None and n != "const":
+                continue
+            if n == "unique_items" and not b:
+                continue
+            if n in lax:
+                run = doc_lax(n, run, b)
+            else:
+                if not sat(n, run, b):
+                    return ("fail", None)
+                if n == "const":
+                    run = b
+                if n == "decimal_places" and isinstance(run, Decimal):
+                    run = run.quantize(Decimal(1).scaleb(-b))
+    except Undefined:
+        return ("undefined", None)
+    except Exception:
+        return ("fail", None)
+    return ("ok", run)
+
+
+def behaves_as_documented(case, io) -> bool:
+    """did the real code, on this case, do exactly what the documented order and sense prescribe — for the first parse
+    and for the re-parse of its result?"""
+    try:
+        v = decode(case["value"])
+        k1, r1 = doc_parse(case, v)
+        p = io.get("parse", {})
+        if k1 != "ok" or "ok" not in p or not same(r1, decode(p["ok"])):
+            return False
+        origin = c02.CLS_BY_NAME.get(case.get("origin"))
+        if origin is not None and not isinstance(r1, origin):
+            return True      # the re-parse of a value of another type starts with the origin conversion (not this phase)
+        k2, r2 = doc_parse(case, r1)
+        rp = io.get("reparse", {})
+        if k2 == "fail":
+            return "perr" in rp
+        if k2 == "ok":
+            return "ok" in rp and same(r2, decode(rp["ok"]))
+        return False
+    except Exception:
+        return False
+
+
 def exact_domain(v) -> bool:
     if isinstance(v, bool):
         return True
@@ -993,6 +1116,12 @@ class C03(C02):
             return None
         if case["op"] == "copy":
             return None
+        documented = case["op"] != "rule" or behaves_as_documented(case, io)
+        # (for declared types every known finding below is "known" only when the real code did exactly what the DOCUMENTED
+        # order and sense prescribe, first parse and re-parse: the defect then lies in the documented design; a
+        # deviation from the documented order — whatever the regenerated model says — is never a known finding)
+        if not documented:
+            return None
         # known finding lax-max-digits-carry: Lax(max_digits) rounding carries into a new digit
         lax_md = (case["op"] == "validator" and case["name"] == "lax_max_digits") or \
                  (case["op"] == "rule" and "max_digits" in case.get("lax", []))
@@ -1018,24 +1147,12 @@ class C03(C02):
                        (list(cs["enum"]) if "enum" in cs and "enum" in case["lax"] and isinstance(cs["enum"], (list, tuple, set)) else [])
             if origin is not None and not isinstance(r, origin) and any(type(r) is type(d) and same(r, d) for d in declared):
                 return "lax-const-not-origin"
-        # known finding lax-result-not-revalidated: the value a Lax constraint produced violates another declared constraint
+        # known finding lax-result-not-revalidated: the value a Lax constraint produced violates another declared
+        # constraint (a later Lax constraint moved the value after an earlier constraint was checked, documented order)
         if case["op"] == "rule" and case.get("lax") and len(case["constraints"]) >= 2 and "ok" in io.get("parse", {}):
             r = decode(io["parse"]["ok"])
-            cs = self._cs(case)
-            # (a) in the sequential, documented sense (Decimal padded by decimal_places before max_digits counts, etc.):
-            # the model of the unchanged validators, run on the result, predicts exactly the re-parse the real code showed
-            rm, rp = io.get("reparse_model"), io.get("reparse", {})
-            if isinstance(rm, dict) and not same(r, decode(case["value"])):
-                if ("err" in rm and "perr" in rp) or ("ok" in rm and "ok" in rp and c02.canon(rm["ok"]) == c02.canon(rp["ok"])):
-                    return "lax-result-not-revalidated"
-            for n, b in cs.items():
-                try:
-                    if b is not None and not sat(n, r, b):
-                        return "lax-result-not-revalidated"
-                except Undefined:
-                    continue
-                except Exception:
-                    continue
+            if not same(r, decode(case["value"])):
+                return "lax-result-not-revalidated"
         return None
 
     def key(self, case, io):
